@@ -7,15 +7,16 @@ import (
 
 // Case is one replayable input plus (after execution) what was observed.
 type Case struct {
-	Prop   string     `json:"prop"`
-	Shape  string     `json:"shape"`
-	Origin string     `json:"origin"` // exhaustive | probe | random | replay
-	Proj   []Task     `json:"proj"`
-	Init   []FileInit `json:"init"`
-	Dirs   []string   `json:"dirs"`
-	Ops    []Op       `json:"ops"`
-	Times  []int64    `json:"times"`
-	Drop   int        `json:"drop"` // index of the read-only invocation removed in the H;K run (-1: none)
+	Prop       string     `json:"prop"`
+	Shape      string     `json:"shape"`
+	Origin     string     `json:"origin"` // exhaustive | probe | random | replay
+	Proj       []Task     `json:"proj"`
+	Init       []FileInit `json:"init"`
+	Dirs       []string   `json:"dirs"`
+	Ops        []Op       `json:"ops"`
+	Times      []int64    `json:"times"`
+	Drop       int        `json:"drop"`                  // index of the read-only invocation removed in the H;K run (-1: none)
+	FileSilent bool       `json:"file_silent,omitempty"` // Taskfile-level `silent: true`
 
 	// observations (not needed for replay; used by the signature functions)
 	History []string          `json:"history,omitempty"`
@@ -35,9 +36,10 @@ func baseInit() []FileInit {
 var baseDirs = []string{"src", "src/sub", "src/ex"}
 
 type shape struct {
-	name string
-	proj []Task
-	init []FileInit
+	name       string
+	proj       []Task
+	init       []FileInit
+	fileSilent bool
 }
 
 func mkShape(kind, method string) shape {
@@ -60,13 +62,30 @@ func mkShape(kind, method string) shape {
 		t.NCmds = 1
 	case "label":
 		t.Label = "my build:1"
+	case "gen2":
+		// two generates entries: removing only one of them must trigger a run
+		t.Generates = []Glob{{false, "out.txt"}, {false, "out2.txt"}}
+		t.Outputs = []string{"out.txt", "out2.txt"}
+	case "silent-task":
+		t.Silent = true
+	case "silent-cmd":
+		t.CmdSilent = true
+	case "silent-file":
+		return shape{kind + "/" + method, []Task{t}, init, true}
+	case "inst":
+		// one definition `deploy` with `label: 'deploy-{{.ENV}}'`, two instances (ENV=staging / ENV=prod)
+		t.Name, t.Def = "deploy", "deploy"
+		u := t
+		t.Env, t.Label = "staging", "deploy-staging"
+		u.Env, u.Label = "prod", "deploy-prod"
+		return shape{kind + "/" + method, []Task{t, u}, init, false}
 	case "collide":
 		u := t
 		t.Name = "gen.x"
 		u.Name = "gen-x"
-		return shape{kind + "/" + method, []Task{t, u}, init}
+		return shape{kind + "/" + method, []Task{t, u}, init, false}
 	}
-	return shape{kind + "/" + method, []Task{t}, init}
+	return shape{kind + "/" + method, []Task{t}, init, false}
 }
 
 // an abstract op of an alphabet; instantiated with the position in the history (fresh contents)
@@ -80,18 +99,28 @@ func invLast(mode, out string) aop {
 }
 
 var (
-	aEdit     aop = func(i int, sh shape) Op { return Op{Kind: "write", P: "src/a.txt", C: fmt.Sprintf("c%d", i)} }
-	aAdd      aop = func(i int, sh shape) Op { return Op{Kind: "write", P: fmt.Sprintf("src/n%d.txt", i), C: "new"} }
-	aRemove   aop = func(i int, sh shape) Op { return Op{Kind: "remove", P: "src/a.txt"} }
-	aMvCross  aop = func(i int, sh shape) Op { return Op{Kind: "rename", P: "src/a.txt", Q: "src/sub/a.txt"} }
-	aMvWithin aop = func(i int, sh shape) Op { return Op{Kind: "rename", P: "src/a.txt", Q: "src/z.txt"} }
-	aTouch    aop = func(i int, sh shape) Op { return Op{Kind: "touch", P: "src/a.txt"} }
-	aEditExcl aop = func(i int, sh shape) Op { return Op{Kind: "write", P: "src/ex/e.txt", C: fmt.Sprintf("x%d", i)} }
-	aEditKeep aop = func(i int, sh shape) Op { return Op{Kind: "write", P: "src/ex/keep.txt", C: fmt.Sprintf("k%d", i)} }
-	aRmGen    aop = func(i int, sh shape) Op { return Op{Kind: "remove", P: "out.txt"} }
-	aFlagOff  aop = func(i int, sh shape) Op { return Op{Kind: "remove", P: "flag.ok"} }
-	aFlagOn   aop = func(i int, sh shape) Op { return Op{Kind: "write", P: "flag.ok", C: "ok"} }
-	aBackdate aop = func(i int, sh shape) Op { return Op{Kind: "setmtime", P: "src/a.txt", T: 0} }
+	aEdit          aop = func(i int, sh shape) Op { return Op{Kind: "write", P: "src/a.txt", C: fmt.Sprintf("c%d", i)} }
+	aAdd           aop = func(i int, sh shape) Op { return Op{Kind: "write", P: fmt.Sprintf("src/n%d.txt", i), C: "new"} }
+	aRemove        aop = func(i int, sh shape) Op { return Op{Kind: "remove", P: "src/a.txt"} }
+	aMvCross       aop = func(i int, sh shape) Op { return Op{Kind: "rename", P: "src/a.txt", Q: "src/sub/a.txt"} }
+	aMvWithin      aop = func(i int, sh shape) Op { return Op{Kind: "rename", P: "src/a.txt", Q: "src/z.txt"} }
+	aTouch         aop = func(i int, sh shape) Op { return Op{Kind: "touch", P: "src/a.txt"} }
+	aEditExcl      aop = func(i int, sh shape) Op { return Op{Kind: "write", P: "src/ex/e.txt", C: fmt.Sprintf("x%d", i)} }
+	aEditKeep      aop = func(i int, sh shape) Op { return Op{Kind: "write", P: "src/ex/keep.txt", C: fmt.Sprintf("k%d", i)} }
+	aRmGen         aop = func(i int, sh shape) Op { return Op{Kind: "remove", P: "out.txt"} }
+	aFlagOff       aop = func(i int, sh shape) Op { return Op{Kind: "remove", P: "flag.ok"} }
+	aFlagOn        aop = func(i int, sh shape) Op { return Op{Kind: "write", P: "flag.ok", C: "ok"} }
+	aBackdate      aop = func(i int, sh shape) Op { return Op{Kind: "setmtime", P: "src/a.txt", T: 0} }
+	aRmGen2        aop = func(i int, sh shape) Op { return Op{Kind: "remove", P: "out2.txt"} }
+	aRun1          aop = func(i int, sh shape) Op { return Op{Kind: "invoke", Mode: "run", Tid: 1, Out: "ok"} }
+	aChain         aop = func(i int, sh shape) Op { return Op{Kind: "invoke", Mode: "chain", Out: "ok", Tids: []int{0, 1}} }
+	aDrySil        aop = func(i int, sh shape) Op { return Op{Kind: "invoke", Mode: "dry", Out: "ok", Silent: true} }
+	aRunSil        aop = func(i int, sh shape) Op { return Op{Kind: "invoke", Mode: "run", Out: "ok", Silent: true} }
+	aForceFailL        = invLast("force", "fail")
+	aForceKill0        = inv("force", "kill", 0)
+	aForceKill1        = inv("force", "kill", 1)
+	aForceDeclined     = inv("force", "promptno", 0)
+
 	aRunOk     = inv("run", "ok", 0)
 	aRunFail0  = inv("run", "fail", 0)
 	aRunFailL  = invLast("run", "fail")
@@ -117,12 +146,22 @@ func alphabet(prop, kind string) []aop {
 		if kind == "gen" || kind == "status" {
 			al[8] = aRmGen
 		}
+		if kind == "plain" {
+			// the exhaustively enumerated shape: kill@1 is covered by the other shapes and the directed histories
+			al = []aop{aEdit, aRunOk, aRunFail0, aRunFailL, aKill0, aForceFail, aListJSON, aDry}
+		}
+		if kind == "inst" {
+			// two instances of one definition: runs of either, a parent calling both, edits
+			return []aop{aEdit, aRunOk, aRun1, aChain, aRunFail0, aForceFail}
+		}
 		return al
 	case "C05":
 		al := []aop{aEdit, aAdd, aRemove, aMvCross, aMvWithin, aTouch, aEditExcl, aEditKeep, aRunOk, aForceOk}
 		switch kind {
 		case "gen":
 			al = append(al, aRmGen)
+		case "gen2":
+			return []aop{aEdit, aRemove, aTouch, aRunOk, aForceOk, aRmGen, aRmGen2}
 		case "status":
 			al = append(al, aRmGen, aFlagOff, aFlagOn)
 		case "plain":
@@ -130,6 +169,15 @@ func alphabet(prop, kind string) []aop {
 		}
 		return al
 	default: // C12
+		switch kind {
+		case "silent-task", "silent-cmd", "silent-file":
+			// nothing is echoed: --dry must still not execute anything
+			return []aop{aEdit, aRunOk, aRunFailL, aDry, aDrySil, aStatus}
+		}
+		if kind == "plain" {
+			// the exhaustively enumerated shape: --summary is covered by the other shapes
+			return []aop{aEdit, aRunOk, aRunFailL, aDry, aStatus, aListJSON, aList}
+		}
 		return []aop{aEdit, aRunOk, aRunFailL, aDry, aStatus, aListJSON, aList, aSummary}
 	}
 }
@@ -144,7 +192,7 @@ func timesFor(n int) []int64 {
 
 func mkCase(prop, origin string, sh shape, ops []Op) *Case {
 	return &Case{Prop: prop, Shape: sh.name, Origin: origin, Proj: sh.proj, Init: sh.init, Dirs: baseDirs,
-		Ops: ops, Times: timesFor(len(ops)), Drop: -1}
+		Ops: ops, Times: timesFor(len(ops)), Drop: -1, FileSilent: sh.fileSilent}
 }
 
 // all histories over the alphabet with 1..maxLen operations (optionally followed by a probing normal run)
@@ -188,11 +236,12 @@ func plans(prop, tier string) []plan {
 	}
 	switch prop {
 	case "C04":
-		return []plan{{"plain", full, false}, {"prompt", part, true}, {"gen", part, true}, {"collide", 1, true}, {"label", 1, true}}
+		return []plan{{"plain", full, false}, {"prompt", part, true}, {"gen", part, true}, {"collide", 1, true}, {"label", 1, true}, {"inst", part, true}}
 	case "C05":
-		return []plan{{"gen", full, false}, {"plain", part, true}, {"status", part, true}}
+		return []plan{{"gen", full, false}, {"plain", part, true}, {"status", part, true}, {"gen2", part, true}}
 	default:
-		return []plan{{"plain", full, false}, {"dir", part, true}, {"gen", part, true}}
+		return []plan{{"plain", full, false}, {"dir", part, true}, {"gen", part, true},
+			{"silent-task", part, true}, {"silent-cmd", part, true}, {"silent-file", part, true}}
 	}
 }
 
@@ -228,14 +277,55 @@ func Exhaustive(prop, tier string, shard, shards int) []*Case {
 			i++
 		}
 	}
+	emit := func(origin string, sh shape, ops []Op) {
+		if i%shards == shard {
+			out = append(out, mkCase(prop, origin, sh, ops))
+		}
+		i++
+	}
+	for _, m := range []string{"checksum", "timestamp"} {
+		switch prop {
+		case "C04":
+			// an earlier success followed by an unsuccessful attempt of every kind, normal and forced
+			for _, kind := range []string{"plain", "gen", "prompt", "gen2"} {
+				sh := mkShape(kind, m)
+				bad := []aop{aRunFail0, aRunFailL, aKill0, aKill1, aForceFail, aForceFailL, aForceKill0, aForceKill1}
+				if kind == "prompt" {
+					bad = append(bad, aDeclined, aForceDeclined)
+				}
+				for _, x := range bad {
+					emit("directed", sh, []Op{aRunOk(0, sh), x(1, sh), aRunOk(2, sh)})
+				}
+			}
+			fallthrough
+		case "C05":
+			// several generates entries, some or all of them removed
+			sh := mkShape("gen2", m)
+			emit("directed", sh, []Op{aRunOk(0, sh), aRmGen(1, sh), aRunOk(2, sh)})
+			emit("directed", sh, []Op{aRunOk(0, sh), aRmGen2(1, sh), aRunOk(2, sh)})
+			emit("directed", sh, []Op{aRunOk(0, sh), aRmGen(1, sh), aRmGen2(2, sh), aRunOk(3, sh)})
+			// instances of one definition with a templated label
+			sh = mkShape("inst", m)
+			emit("directed", sh, []Op{aRunOk(0, sh), aRun1(1, sh), aRunOk(2, sh), aRun1(3, sh)})
+			emit("directed", sh, []Op{aChain(0, sh), aChain(1, sh), aEdit(2, sh), aRun1(3, sh), aChain(4, sh)})
+		case "C12":
+			// nothing echoed (--silent): --dry must still execute nothing
+			sh := mkShape("plain", m)
+			emit("directed", sh, []Op{aDrySil(0, sh)})
+			emit("directed", sh, []Op{aRunOk(0, sh), aEdit(1, sh), aDrySil(2, sh), aRunOk(3, sh)})
+			emit("directed", sh, []Op{aRunSil(0, sh), aDrySil(1, sh), aRunSil(2, sh)})
+			sh = mkShape("gen", m)
+			emit("directed", sh, []Op{aDrySil(0, sh), aRunOk(1, sh)})
+		}
+	}
 	return out
 }
 
 // Random draws a longer history over the union of the alphabets of a random shape.
 func Random(prop string, r *rand.Rand) *Case {
-	kinds := []string{"plain", "gen", "prompt", "status", "dir", "collide", "label"}
+	kinds := []string{"plain", "gen", "prompt", "status", "dir", "collide", "label", "gen2", "inst"}
 	if prop == "C12" {
-		kinds = []string{"plain", "gen", "dir", "status", "collide"}
+		kinds = []string{"plain", "gen", "dir", "status", "collide", "silent-task", "silent-cmd", "silent-file"}
 	}
 	kind := kinds[r.Intn(len(kinds))]
 	m := []string{"checksum", "timestamp"}[r.Intn(2)]
@@ -252,7 +342,7 @@ func Random(prop string, r *rand.Rand) *Case {
 		} else {
 			o = al[r.Intn(len(al))](i, sh)
 		}
-		if o.Kind == "invoke" {
+		if o.Kind == "invoke" && o.Mode != "chain" {
 			o.Tid = r.Intn(len(sh.proj))
 			if o.Out == "fail" || o.Out == "kill" {
 				o.K = r.Intn(sh.proj[o.Tid].NCmds + 1)
